@@ -341,6 +341,63 @@ M("C12", "R-percent-scaling-rewritten", OPT,
             / self.consts_for_optimizer["BILLION_KCALS_NEEDED"],
             "Kcals_Fed_Month_""" + '"', None)
 
+# ---------------------------------------------------------------------------- C10
+UCF = "src/food_system/unit_conversions.py"
+M("C10", "table-wrong-sibling", UCF,
+  '''            "percent people fed per month": billion_kcal_to_percent_fed,''',
+  '''            "percent people fed per month": billion_kcal_to_billion_people,''', "C10.TABLE")
+M("C10", "table-missing-form", UCF,
+  '''            "million dry caloric tons per month": billion_kcal_to_million_dry_caloric_tons,
+''', "", "C10.TABLE")
+M("C10", "conversion-lane-crossed", UCF,
+  '''        fat_conversion = 1 / from_unit_multiplier[1] * to_unit_multiplier[1]''',
+  '''        fat_conversion = 1 / from_unit_multiplier[0] * to_unit_multiplier[1]''', "C10.CONV")
+M("C10", "conversion-inverted", UCF,
+  '''        kcals_conversion = 1 / from_unit_multiplier[0] * to_unit_multiplier[0]''',
+  '''        kcals_conversion = from_unit_multiplier[0] / to_unit_multiplier[0]''', "C10.CONV")
+M("C10", "form-suffix-swapped", UCF,
+  '''            new_units_kcals = to_units_kcals + " each month"''',
+  '''            new_units_kcals = to_units_kcals + " per month"''', "C10.FORM")
+M("C10", "in-units-lane-crossed", UCF,
+  '''            fat=fat_conversion * self.fat,
+            protein=protein_conversion * self.protein,
+            kcals_units=new_units_kcals,''',
+  '''            fat=kcals_conversion * self.fat,
+            protein=protein_conversion * self.protein,
+            kcals_units=new_units_kcals,''', "C10.FORM")
+M("C10", "wrapper-unknown-triple", UCF,
+  '''            "kcals per person per day",
+            "effective kcals per person per day",
+            "effective kcals per person per day",
+        )''',
+  '''            "effective kcals per person per day",
+            "effective kcals per person per day",
+            "effective kcals per person per day",
+        )''', "C10.FORM")
+M("C10", "anchor-needs-scale", UCF,
+  '''        self.billion_kcals_needed = self.kcals_monthly * population / 1e9''',
+  '''        self.billion_kcals_needed = self.kcals_monthly * population / 1e6''', "C10.ANCHOR")
+M("C10", "anchor-fat-needs-without-population", UCF,
+  '''        self.thou_tons_fat_needed = self.fat_monthly * population''',
+  '''        self.thou_tons_fat_needed = self.fat_monthly''', "C10.ANCHOR")
+M("C10", "effective-kcals-uses-fat-daily", UCF,
+  '''        billion_people_fat_to_kcals_equivalent = (
+            1e9 / conversions.population * conversions.kcals_daily
+        )''',
+  '''        billion_people_fat_to_kcals_equivalent = (
+            1e9 / conversions.population * conversions.fat_daily
+        )''', "C10.ANCHOR")
+M("C10", "R-sibling-rewritten", UCF,
+  '''            "kcals per person per day per month": billion_kcal_to_percent_fed
+            * percent_kcal_to_kcals_per_day,''',
+  '''            "kcals per person per day per month": billion_kcal_to_billion_people
+            * billion_people_to_kcals_equivalent,''', None)
+M("C10", "R-conversion-rewritten", UCF,
+  '''        kcals_conversion = 1 / from_unit_multiplier[0] * to_unit_multiplier[0]''',
+  '''        kcals_conversion = to_unit_multiplier[0] / from_unit_multiplier[0]''', None)
+M("C10", "R-days-in-month-changed", UCF,
+  '''        self.days_in_month = 30''', '''        self.days_in_month = 30.4375''', None)
+
 # ---------------------------------------------------------------------------- runner
 
 COPY = ["src", "scenarios", "scripts", "plot_manuscript_figures.py", "tests"]
